@@ -229,8 +229,13 @@ class Task:
             content_length_header = str(self.content_length)
             self.response_headers.append(("Content-Length", content_length_header))
 
+        # the request parser may have decided that the connection can not be
+        # reused after this request (for example Content-Length together with
+        # Transfer-Encoding, see RFC 9112 section 6.1)
+        must_close = getattr(self.request, "connection_close", False)
+
         if version == "1.0":
-            if connection == "keep-alive":
+            if connection == "keep-alive" and not must_close:
                 if not content_length_header:
                     self.set_close_on_finish()
                 else:
@@ -239,7 +244,7 @@ class Task:
                 self.set_close_on_finish()
 
         elif version == "1.1":
-            if connection == "close":
+            if connection == "close" or must_close:
                 self.set_close_on_finish()
 
             if not content_length_header:
